@@ -26,6 +26,7 @@ type c18Input struct {
 	Segs   [][]int  `json:"segs,omitempty"` // keys per segment (ascending overall)
 	Conc   bool     `json:"conc,omitempty"` // fill segments concurrently
 	MM     bool     `json:"mm,omitempty"`
+	Sched  int64    `json:"sched,omitempty"` // != 0: concurrent fill under the deterministic scheduler (parks around the load and the update of the shared height), seed of the schedule
 }
 
 func c18Merge(in *c18Input, sink *CaseSink) {
@@ -163,7 +164,24 @@ func c18Build(in *c18Input, r *rand.Rand, sink *CaseSink) {
 		}
 	}
 	_ = keep
-	if in.Conc {
+	if in.Conc && in.Sched != 0 && len(segs) > 0 {
+		sch := NewSched(len(segs), skiplist.VerifPtLevelLoad, skiplist.VerifPtLevelCas)
+		skiplist.VerifYieldHook = sch.Hook
+		for i := range segs {
+			i := i
+			sch.Go(i, func() {
+				sch.OpStart(i)
+				for _, itm := range items[i] {
+					segs[i].Add(itm)
+				}
+			})
+		}
+		ok := sch.Run(len(segs), randomChooser(rand.New(rand.NewSource(in.Sched)), 30), 200000)
+		if !ok || !sch.AllFinished() {
+			sch.Abandon()
+		}
+		skiplist.VerifYieldHook = nil
+	} else if in.Conc {
 		var wg sync.WaitGroup
 		for i := range segs {
 			wg.Add(1)
@@ -225,6 +243,12 @@ func c18Build(in *c18Input, r *rand.Rand, sink *CaseSink) {
 	if bad == "" {
 		bad, sig = skStructure(sl, rep.NodeDistribution[:], rep.SoftDeletes, int64(rep.NodeCount))
 	}
+	// the height of the assembled list covers every tower (searches and unlink passes start there)
+	for k, h := range levelOf {
+		if h > level && bad == "" {
+			bad, sig = fmt.Sprintf("the assembled list has height %d but the node with key %d has a tower of level %d", level, k, h), "c18-height"
+		}
+	}
 	var counts []string
 	for l := 0; l <= 6; l++ {
 		counts = append(counts, cZ(rep.NodeDistribution[l]))
@@ -273,6 +297,13 @@ func c18Build(in *c18Input, r *rand.Rand, sink *CaseSink) {
 			n, _ = n.VerifNext(0)
 		}
 	}
+	if bad == "" {
+		rep2 := sl.GetStats()
+		bad, sig = skStructure(sl, rep2.NodeDistribution[:], rep2.SoftDeletes, int64(rep2.NodeCount))
+		if bad != "" {
+			bad = "after later operations on the assembled list: " + bad
+		}
+	}
 	coq := fmt.Sprintf("CBuild %s %s %d %s %s %s %s %s", cList(segsC), cList(chains), level, cList(counts), cZ(rep.NodeAllocs), cList(ops), cList(res), cList(after))
 	empties := 0
 	for _, s := range in.Segs {
@@ -280,7 +311,7 @@ func c18Build(in *c18Input, r *rand.Rand, sink *CaseSink) {
 			empties++
 		}
 	}
-	idx := sink.Add(coq, in, fmt.Sprintf("build-%dsegs-conc%v", len(in.Segs), in.Conc), len(in.Segs) >= 2 && len(want) >= 3)
+	idx := sink.Add(coq, in, fmt.Sprintf("build-%dsegs-conc%v-sched%v", len(in.Segs), in.Conc, in.Sched != 0), len(in.Segs) >= 2 && len(want) >= 3)
 	sink.Count("build-empty-segments", empties)
 	if bad != "" {
 		sink.Fail(idx, bad, sig, in)
@@ -319,10 +350,19 @@ func c18Gen(r *rand.Rand, i int) *c18Input {
 		return in
 	}
 	in := &c18Input{Kind: "build", Conc: r.Intn(2) == 0, MM: r.Intn(3) == 0}
+	if in.Conc && r.Intn(3) > 0 {
+		in.Sched = 1 + r.Int63n(1<<40)
+	}
 	ns := r.Intn(9)
+	if in.Sched != 0 {
+		ns = 2 + r.Intn(7)
+	}
 	next := 1
 	for s := 0; s < ns; s++ {
 		n := []int{0, 0, 1, 2, r.Intn(40)}[r.Intn(5)]
+		if in.Sched != 0 && s%4 != 3 {
+			n = 1 + r.Intn(4) // many short fillers racing for the height while it is still low
+		}
 		var ks []int
 		for k := 0; k < n; k++ {
 			next += 1 + r.Intn(3)
@@ -342,7 +382,7 @@ func init() {
 		sink := NewSink(a.out, "C18", "Tie.C18Tie", a.seed)
 		sink.scope = "nat_scope"
 		sink.perFile = 150
-		sink.meta.Rule = "merge: 1..5 lists (sizes 0..8, overlapping/duplicate/empty contents) with scripts of SeekFirst/Seek/Next that reposition before, during and after a scan; build: 0..8 segments (sizes 0,0,1,2,<=40; empty ones leading/trailing), sequential or concurrent fill, both memory modes, the node levels the builder drew are read back and given to the model, then up to 7 Insert/Delete/Lookup on the assembled list; non-trivial = merge script with a re-seek and >=3 items, build with >=2 segments and >=3 items"
+		sink.meta.Rule = "merge: 1..5 lists (sizes 0..8, overlapping/duplicate/empty contents) with scripts of SeekFirst/Seek/Next that reposition before, during and after a scan; build: 0..8 segments (sizes 0,0,1,2,<=40; empty ones leading/trailing), sequential, free-running concurrent or scheduler-driven concurrent fill (threads park before the load and before the update of the shared height, random schedules), both memory modes, the node levels the builder drew are read back and given to the model, then up to 7 Insert/Delete/Lookup on the assembled list; non-trivial = merge script with a re-seek and >=3 items, build with >=2 segments and >=3 items"
 		run := func(in *c18Input, r *rand.Rand) {
 			if in.Kind == "merge" {
 				c18Merge(in, sink)
